@@ -316,10 +316,15 @@ def inverse_part(draw, nsol, true, user_phases, present, flavour, decoy_pool):
         for _ in range(k):
             us.append(draw(st.one_of(cg.logu(0.003, 0.5, 2), st.sampled_from([0.0, 1.0, 2.0, -1e-6, -1e-5, 0.05]))))
         balances.append([name, us])
-    if draw(W([(3, False), (1, True)])):
-        balances.append(["pH", [draw(st.sampled_from([0.01, 0.1, 0.3, 0.05]))] * draw(st.integers(1, nall))])
-    if draw(W([(3, False), (1, True)])):
-        balances.append(["Alkalinity", [draw(st.sampled_from([0.02, 0.1, 1.0, -1e-5, -1e-4, 0.5]))]])
+    loose = draw(W([(7, False), (1, True)]))      # wide pH and alkalinity limits: models survive a wrong alkalinity bookkeeping
+    if loose:
+        balances.append(["pH", [draw(st.sampled_from([0.5, 1.0]))]])
+        balances.append(["Alkalinity", [draw(st.sampled_from([1.0, 2.0]))]])
+    else:
+        if draw(W([(3, False), (1, True)])):
+            balances.append(["pH", [draw(st.sampled_from([0.01, 0.1, 0.3, 0.05]))] * draw(st.integers(1, nall))])
+        if draw(W([(3, False), (1, True)])):
+            balances.append(["Alkalinity", [draw(st.sampled_from([0.02, 0.1, 1.0, -1e-5, -1e-4, 0.5]))]])
     has_water = "H2O(g)" in true
     inv = {"phases": phases, "unc": unc, "balances": balances,
            "range": draw(W([(3, None), (3, ""), (1, 2000.0), (1, 500.0), (1, 1e5)])),
